@@ -2,6 +2,8 @@
 from lib import hexs
 
 MODULE = "DtailModel.Props.C12"
+# translated packages (tie G) this property's theorems rest on
+GEN_UNITS = ("Regex",)
 GROUPS = ["C10", "C12", "C03", "GEN"]
 BINS = True
 LOGGER = "none"
